@@ -58,8 +58,86 @@ func runC20ComparableResolvers(c *Ctx) {
 	}
 }
 
+// runC20FloatWidth: C20.7 (seed C20h).  protoreflect values are kind-strict for dynamic messages
+// (a float64 Value assigned to a 32-bit float field panics in dynamicpb) while generated messages
+// convert silently - so a width mix-up is invisible with generated code and crashes ServeHTTP for
+// the same schema loaded dynamically.  In a function that produces float Values for a width given
+// by a parameter (it compares that parameter with 32), every ValueOfFloat64 is made on a path that
+// knows the width is not 32, and every ValueOfFloat32 on one that knows it is.
+func runC20FloatWidth(c *Ctx) {
+	p := c.P
+	c.Rule("C20.7", "a float value is built with the width of its field (dynamic messages reject a float64 for a 32-bit field)", 1)
+	n := 0
+	for _, fn := range p.Funcs {
+		if !p.inScope(fn) {
+			continue
+		}
+		// the width parameter: an int parameter compared with the constant 32
+		var width *ssa.Parameter
+		ForEachInstr(fn, func(in ssa.Instruction) {
+			if b, ok := in.(*ssa.BinOp); ok && (b.Op == token.EQL || b.Op == token.NEQ) {
+				if k, isK := ConstInt(b.Y); isK && k == 32 {
+					if pr, isP := b.X.(*ssa.Parameter); isP {
+						width = pr
+					}
+				}
+			}
+		})
+		if width == nil {
+			continue
+		}
+		makes := false
+		for _, call := range Calls(fn) {
+			if IsCallTo(call, "google.golang.org/protobuf/reflect/protoreflect.ValueOfFloat64", "google.golang.org/protobuf/reflect/protoreflect.ValueOfFloat32") {
+				makes = true
+			}
+		}
+		if !makes {
+			continue
+		}
+		n++
+		paths, ok := EnumPaths(fn.Blocks[0], nil, IsReturn, 0)
+		if !ok {
+			c.Unknown("C20.7", FuncName(fn), "float-width", fn.Pos(), "too many paths")
+			continue
+		}
+		bad := 0
+		for _, cp := range paths {
+			is32, known := false, false
+			for cond, truth := range cp.Truth {
+				if b, isB := cond.(*ssa.BinOp); isB && b.X == ssa.Value(width) {
+					if k, isK := ConstInt(b.Y); isK && k == 32 {
+						known = true
+						is32 = (b.Op == token.EQL) == truth
+					}
+				}
+			}
+			for _, blk := range cp.Blocks {
+				for _, in := range blk.Instrs {
+					call, isCall := in.(ssa.CallInstruction)
+					if !isCall {
+						continue
+					}
+					w64 := IsCallTo(call, "google.golang.org/protobuf/reflect/protoreflect.ValueOfFloat64")
+					w32 := IsCallTo(call, "google.golang.org/protobuf/reflect/protoreflect.ValueOfFloat32")
+					if w64 && !(known && !is32) || w32 && !(known && is32) {
+						bad++
+					}
+				}
+			}
+		}
+		c.Check(bad == 0, "C20.7", FuncName(fn), "float-width", fn.Pos(),
+			"every float Value is made on a path that knows the field's width and matches it",
+			itoa(bad)+" path(s) build a float Value whose width is not the one the path knows for the field (a float64 Value for a 32-bit field): generated messages convert silently, dynamic messages panic ('assigning invalid type float64') - the same schema behaves differently depending on how it was loaded")
+	}
+	if n == 0 {
+		c.Bad("C20.7", "package", "float-width", token.NoPos, "no width-parameterised float decoder found: shape changed")
+	}
+}
+
 func runC20(c *Ctx) {
 	defer runC20ComparableResolvers(c)
+	defer runC20FloatWidth(c)
 	p := c.P
 
 	// ---------------------------------------------------------------- C20.1
